@@ -1295,7 +1295,7 @@ def compare_items(ctx: Ctx, items, replies):
             if len(parts) != 3 or any(len(a) != len(b) or any(abs(x - y) > 1e-9 for x, y in zip(a, b)) for a, b in zip(impl, parts)):
                 ctx.disagree(stream, {"request": req}, repr(impl), rep)
             continue
-        if stream in ("frames", "writers", "spots", "catch", "pair", "hist"):
+        if stream in ("frames", "writers", "spots", "catch", "pair", "hist", "method"):
             if rep != impl:
                 ctx.disagree(stream, {"request": req}, impl[:400], rep[:400])
             continue
@@ -1608,6 +1608,10 @@ def run(ctx: Ctx):
                     items += glue_termlog_item(ctx, rng.fork("termlog"), spec, gen_scenario(rng, spec, m_, True))
         except Exception as e:
             ctx.count(f"glue:raised:{type(e).__name__}")
+    # the `method` option: every key of the real table, plus strings that are not methods
+    for w in sorted(k for k in _sim._SIMULATOR_MODULE if not k.startswith("__")) + ["stack", "newton", "Stacked", "period_by_period_", "first-order"]:
+        mod = _sim._SIMULATOR_MODULE.get(w)
+        items.append(("method", f"method {w}", mod.METHOD_NAME if mod is not None else "KeyError", None))
     try:
         fitems = glue_finding_item(ctx)
         for it in fitems:
